@@ -9,11 +9,14 @@
   Proved for ALL well-formed tables and ALL instants before the last recorded transition
   (and after it when the zone's `ttinfo_std` is the last transition's type).
 
-  NOT proved here (covered only by the per-run correspondence `tzfile.reenc` / `tzfile.load`):
-    decode_encode : RawWF r → decode (encode r) = .ok r
-    eq_of_same_data : tzEq (build r) (build r') = true ↔ build r = build r'
+  `decode_encode`: the model decoder inverts the tzfile(5) encoder of the spec on every table
+  within the format's ranges (`RawWF`).  `eq_of_same_data`: `tzfile.__eq__` (which compares
+  trans_list, trans_idx and ttinfo_list only) holds exactly when the two built objects are equal in
+  every component, so equal zones answer every query identically.
 -/
 import DateutilVerif.Proofs.ZonesBuild
+import DateutilVerif.Proofs.DecodeEncode
+import DateutilVerif.Proofs.EqData
 
 namespace C06
 open TZ Spec
@@ -91,6 +94,35 @@ theorem dst_zero_on_standard (r : Raw) (hwf : Spec.wf r = true) (t u : Int)
       have : (ttOf (build r) b s (bisectRight (build r).utc t)).isdst = 0 := by rw [← hrel.2.1]; exact hstd
       simp [this]
 
+/-- **decode_encode.** For every raw table within the ranges of the format (32-bit instants and
+    offsets, byte-sized isdst and type indices, NUL-free ASCII abbreviations whose table fits the
+    signed index byte), decoding the version-1 stream written from tzfile(5) gives the table back. -/
+theorem decode_encode (r : Raw) (h : RawWF r) : decode (encode r) = .ok r :=
+  TZ.decode_encode r h
+
+/-- **eq_of_same_data.** `tzfile.__eq__` ⇔ the two objects agree in every component
+    (UTC list, both wall lists, std/dst/before included). -/
+theorem eq_of_same_data (r r' : Raw) : tzEq (build r) (build r') = true ↔ build r = build r' := by
+  constructor
+  · intro h
+    simp only [tzEq, Bool.and_eq_true, beq_iff_eq] at h
+    obtain ⟨⟨h1, h2⟩, h3⟩ := h
+    obtain ⟨l1, t1⟩ := build_lengths r
+    obtain ⟨l2, t2⟩ := build_lengths r'
+    have hutc : (build r).utc = (build r').utc := by
+      rw [t1, t2, ← h2] at h1
+      apply zipWith_add_inj _ _ _ _ _ h1
+      · simp [dstLoop_length, l1]
+      · simp [dstLoop_length, l2, h2]
+    rw [build_eq_assemble r, build_eq_assemble r', hutc, h2, h3]
+  · intro h; rw [h]; simp [tzEq]
+
+/-- equal zones answer identically (corollary, spelled out for the three observations) -/
+theorem eq_same_answers (r r' : Raw) (h : tzEq (build r) (build r') = true) (t : Int) (w : Wall) :
+    fromutc (build r) t = fromutc (build r') t ∧ utcoffset (build r) w = utcoffset (build r') w ∧
+    tzname (build r) w = tzname (build r') w ∧ dst (build r) w = dst (build r') w := by
+  rw [(eq_of_same_data r r').mp h]; exact ⟨rfl, rfl, rfl, rfl⟩
+
 /-! non-vacuity: a two-type table (standard +0 "A", daylight +3600 "B") with three transitions -/
 def exR : Raw :=
   { trans := [(1000000, 1), (2000000, 0), (3000000, 1)],
@@ -100,5 +132,13 @@ example : lastTime exR = some 3000000 := by decide
 example : fromutc (build exR) 1500000 = .ok ⟨1503600, false⟩ := by decide
 example : fromutc (build exR) 2000100 = .ok ⟨2000100, true⟩ := by decide
 example : typeAt exR 1500000 = some ⟨3600, 1, [66], false, false, 0⟩ := by decide
+
+example : RawWF exR := by
+  refine ⟨by decide, ?_, ?_, by decide⟩
+  · intro p hp; simp only [exR, List.mem_cons, List.not_mem_nil, or_false] at hp
+    rcases hp with e | e | e <;> subst e <;> simp [In32, exR]
+  · intro t ht; simp only [exR, List.mem_cons, List.not_mem_nil, or_false] at ht
+    rcases ht with e | e <;> subst e <;> simp [TypeOK, In32]
+example : (encode exR).length = 44 + 12 + 3 + 12 + 4 + 2 + 2 := by decide
 
 end C06
